@@ -115,16 +115,27 @@ class Unit(as2a.Unit):
         ta = open(os.path.join(core.SRC, 'celma/prog_args/detail/typed_arg.hpp')).read()
         self.assigners = []
         inc = ['// generated: member functions sliced out of celma/prog_args/detail/typed_arg.hpp (T := int, N := CV_N)']
-        for kind, spec, env in (('carray', 'T[ N]', 'CV_TA_carray'), ('stdarray', 'std::array< T, N>', 'CV_TA_stdarray'), ('bitset', 'std::bitset< N>', 'CV_TA_bitset')):
+        for kind, spec, env in (('carray', 'T[ N]', 'CV_TA_carray'), ('stdarray', 'std::array< T, N>', 'CV_TA_stdarray'), ('bitset', 'std::bitset< N>', 'CV_TA_bitset'),
+                                ('vecbool', 'std::vector< bool>', 'CV_TA_vecbool')):
             tmpl = r'template< size_t N>' if kind == 'bitset' else r'template< typename T, size_t N>'
-            m = re.search(tmpl + r'\n   void TypedArg< %s>::assign\( const std::string& value, bool\)\n\{\n.*?\n\} // TypedArg< %s>::assign\n'
-                          % (re.escape(spec), re.escape(spec)), ta, flags=re.S)
+            if kind == 'vecbool':   # defined inside the class body
+                m = re.search(r'   void assign\( const std::string& value, bool\) override\n   \{\n(?:(?!\n   \} // ).)*?\n   \} // TypedArg< std::vector< bool>>::assign\n', ta, flags=re.S)
+            else:
+                m = re.search(tmpl + r'\n   void TypedArg< %s>::assign\( const std::string& value, bool\)\n\{\n.*?\n\} // TypedArg< %s>::assign\n'
+                              % (re.escape(spec), re.escape(spec)), ta, flags=re.S)
             if not m:
                 raise Undecided('slice rule: TypedArg< %s>::assign not found in typed_arg.hpp' % spec)
             t = m.group(0)
-            rules = [('T-INST-head', tmpl + r'\n   void TypedArg< %s>::assign\(' % re.escape(spec), 'void %s::assign(' % env, 1),
-                     ('T-INST-N', r'\bN\b', 'CV_N', (1, 3))]
-            if kind == 'bitset':
+            if kind == 'vecbool':
+                rules = [('T-INST-head', r'   void assign\( const std::string& value, bool\) override', 'void %s::assign( const std::string& value, bool)' % env, 1)]
+            else:
+                rules = [('T-INST-head', tmpl + r'\n   void TypedArg< %s>::assign\(' % re.escape(spec), 'void %s::assign(' % env, 1),
+                         ('T-INST-N', r'\bN\b', 'CV_N', (1, 3))]
+            if kind == 'vecbool':
+                rules += [('R-BOOLCONV', r'if \(mpCardinality && ', 'if ((mpCardinality.get() != nullptr) && ', 1),
+                          ('R-AUTO-init2', r'auto const&  listVal\( \*it\);', 'const std::string  listVal( *it);', 1),
+                          ('R-AUTO-init3', r'auto  valCopy\( listVal\);', 'std::string  valCopy( listVal);', 1)]
+            elif kind == 'bitset':
                 rules += [('R-BOOLCONV', r'if \(mpCardinality && ', 'if ((mpCardinality.get() != nullptr) && ', 1),   # no user-defined conversion operators in the front end
                           ('R-AUTO-init2', r'auto const&  list_val\( \*it\);', 'const std::string  list_val( *it);', 1),
                           ('R-AUTO-init3', r'auto  valCopy\( list_val\);', 'std::string  valCopy( list_val);', 1)]
@@ -141,7 +152,7 @@ class Unit(as2a.Unit):
                      ('R-INDUCT', r'for \(auto it = tok\.begin\(\); it != tok\.end\(\); \+\+it\)', 'for (cv_tok_iterator it = tok.cv_any_position(); cv_once && it != tok.end(); cv_once = false)', 1),
                      # R-ARROW: the front end has no user-defined operator->; for std::unique_ptr p->f() is p.get()->f()
                      ('R-ARROW', r'mpCardinality->gotValue\(\)', 'mpCardinality.get()->gotValue()', 1),
-                     ('R-THROW-cut', r'throw std::runtime_error\([^;]*\);', 'CV_THROW_CUT( 1);', 2)]
+                     ('R-THROW-cut', r'throw std::runtime_error\([^;]*\);', 'CV_THROW_CUT( 1);', 0 if kind == 'vecbool' else 2)]
             fired = {}
             for name, pat, rep, cnt in rules:
                 t, n = re.subn(pat, rep, t, flags=re.S)
@@ -153,12 +164,21 @@ class Unit(as2a.Unit):
             fired['R-AUTO(generic)'] = n
             if re.search(r'\bauto\b', re.sub(r'//[^\n]*', '', t)):
                 raise Undecided('slice of TypedArg< %s>::assign still contains an `auto` the rules do not cover' % spec)
+            if kind == 'vecbool':
+                # the growth helper the assigner calls (in-class definition as well): sliced with it
+                mh = re.search(r'   size_t grownSize\( size_t pos\) const\n   \{\n(?:(?!\n   \} // ).)*?\n   \} // TypedArg< std::vector< bool>>::grownSize\n', ta, flags=re.S)
+                if mh:
+                    th, nh = re.subn(r'   size_t grownSize\( size_t pos\) const', 'size_t %s::grownSize( size_t pos) const' % env, mh.group(0))
+                    th, nt = re.subn(r'throw std::length_error\([^;]*\);', 'CV_THROW_CUT( 1);', th, flags=re.S)
+                    fired['slice-helper grownSize'] = nh
+                    fired['R-THROW-cut(helper)'] = nt
+                    t = th + '\n' + t
             inc.append(t)
             self.assigners.append({'kind': kind, 'function': 'TypedArg< %s>::assign' % spec, 'rules': fired, 'lines': m.group(0).count('\n')})
             sh.report.append({'file': 'celma/prog_args/detail/typed_arg.hpp [slice TypedArg< %s>::assign]' % spec, 'rules': fired,
                               'diff_lines': sum(fired.values()), 'lines': m.group(0).count('\n')})
             # static fact behind the invariant's base case: mIndex is initialised to 0 and written nowhere but in assign()
-            if kind == 'bitset':
+            if kind in ('bitset', 'vecbool'):
                 continue   # no index state: every position comes from the token itself
             cls = ta[ta.index('class TypedArg< %s>' % spec):m.end()]
             writes = re.findall(r'[^\n]*(?:\+\+\s*mIndex|mIndex\s*(?:\+\+|--|[-+*/]?=(?!=)))[^\n]*', cls)
@@ -189,6 +209,19 @@ class Unit(as2a.Unit):
         scratch.write('gen/name_blocks.inc',
                       'extern "C" void w_block_0( const char* arg0)\n{\n%s\n}\n'
                       'extern "C" void w_block_1( const char* arg0, void* name_obj)\n{\n   std::string& mEnvVarName = *static_cast< std::string*>( name_obj);\n%s\n}\n' % tuple(self.blocks))
+        # ---- one line of an argument file: the body of the reading loop of Handler::readArgumentFile, for an arbitrary line
+        mf = re.search(r'void Handler::readArgumentFile\(.*?\n   while \(!std::getline\( progArgs, line\)\.eof\(\)\)\n   \{\n(.*?)\n   \} // end while', src, flags=re.S)
+        if not mf:
+            raise Undecided('slice rule: reading loop of Handler::readArgumentFile not found in handler.cpp')
+        t = re.sub(r'\bauto\s+const(\s+\w+\s*=)', r'const auto\1', mf.group(1))
+        t, n_auto = re.subn(r'((?:const\s+)?)auto(\s+)(\w+)\s*=\s*([^;]+);', core._auto_repl, t)
+        if re.search(r'\bauto\b', re.sub(r'//[^\n]*', '', t)):
+            raise Undecided('file-line block still contains an `auto` the rules do not cover')
+        # R-INDUCT: one pass of the loop body for an arbitrary line (`continue` leaves through the increment expression)
+        scratch.write('gen/file_line.inc', 'void cv_file_line( std::string& line)\n{\n   for (bool cv_once = true; cv_once; cv_once = false)\n   {\n%s\n   }\n}\n' % t)
+        sh.report.append({'file': 'library/prog_args/handler.cpp [readArgumentFile: body of the line loop]', 'rules': {'R-AUTO(generic)': n_auto, 'R-INDUCT': 1, 'slice': 1},
+                          'diff_lines': n_auto + 1, 'lines': mf.group(1).count('\n') + 1})
+        self.hf = scratch.write('gen/h_c04_file.cpp', HARNESS_FILE)
         self.hb = scratch.write('gen/h_c04_blocks.cpp', HARNESS_BLOCKS_CPP)
         self.cb = scratch.write('gen/c04_blocks.c', HARNESS_BLOCKS_C)
         self.h4 = scratch.write('gen/h_c04.cpp', HARNESS_IT)
@@ -285,6 +318,16 @@ template< typename C, typename V> bool contains( const C&, const V&) { return cv
 namespace boost { template< typename T> T cv_lexical_cast( T*, const std::string&) { if (cv_nondet_bool()) __CPROVER_assume(0); /* bad_lexical_cast */ T cvin_cast_value; return cvin_cast_value; /* any value of the type */ } }
 namespace std {
 template< typename T, size_t N> struct array { T mE[N]; T& operator[]( size_t i) { return mE[i]; } T* begin() { return mE; } };
+// std::vector< bool>: size() <= CV_VCAP in this model (a larger resize is a cut path: growth beyond the model / length_error),
+// operator[]( pos) is the unchecked access
+#define CV_VCAP 24
+template< typename T> class vector;
+template<> class vector< bool> { public: size_t mSize; bool mB[CV_VCAP];
+  size_t size() const { return mSize; } void clear() { mSize = 0; } size_t max_size() const { return 0x7fffffffffffffc0UL; }
+  void resize( size_t n) { if (n > CV_VCAP) __CPROVER_assume(0); for (size_t i = 0; i < CV_VCAP; ++i) if (i >= mSize && i < n) mB[i] = false; mSize = n; }
+  // memory level (what C04 is about): libstdc++ stores the bits in 64-bit words, an index behind size() but inside the last word
+  // stays inside the allocation (undefined by the standard, invisible to ASan); the obligation is the allocation bound
+  bool& operator[]( size_t pos) { __CPROVER_assert(mSize != 0 && pos < ((mSize + 63) / 64) * 64, "std::vector<bool>::operator[]: position inside the allocated words (unchecked access)"); return mB[pos < CV_VCAP ? pos : 0]; } };
 // std::bitset< N>::operator[]( pos): undefined behaviour for pos >= N (unchecked access) -- a checked precondition here
 template< size_t N> struct bitset { bool mB[N]; bool& operator[]( size_t pos) { __CPROVER_assert(pos < N, "std::bitset::operator[]: pos < N (unchecked access, undefined behaviour otherwise)"); return mB[pos < N ? pos : 0]; }
   void reset() { for (size_t i = 0; i < N; ++i) mB[i] = false; } };
@@ -309,6 +352,12 @@ typedef std::array< CV_T, CV_N> cv_array_type;
 // element of the separate N-element destination indexes identically
 CV_ENV(CV_TA_carray, CV_T* mDestVar, CV_T*)
 CV_ENV(CV_TA_stdarray, cv_array_type& mDestVar, cv_array_type&)
+typedef std::vector< bool> cv_vecbool_type;
+struct CV_TA_vecbool { CV_TA_vecbool( cv_vecbool_type& d): mDestVar( d) { } cv_vecbool_type& mDestVar; char mListSep; bool mClearB4Assign; bool mResetFlags;
+  cv_Formats mFormats; cv_CardPtr mpCardinality;
+  void check( const std::string&) { if (cv_nondet_bool()) __CPROVER_assume(0); } void format( std::string&) { }
+  size_t grownSize( size_t pos) const; std::string mVarName;
+  void assign( const std::string& value, bool); };
 typedef std::bitset< CV_N> cv_bitset_type;
 struct CV_TA_bitset { CV_TA_bitset( cv_bitset_type& d): mDestVar( d) { } cv_bitset_type& mDestVar; char mListSep; bool mClearB4Assign; bool mResetFlags;
   cv_Formats mFormats; cv_CardPtr mpCardinality;
@@ -322,12 +371,35 @@ using namespace celma::prog_args::detail;
   cvin_tok_pos = cv_nondet_size(); size_t cvin_index = cv_nondet_size(); __CPROVER_assume(cvin_index <= CV_N);   /* invariant: 0 <= mIndex <= N (mIndex starts at 0, written only by assign) */ \
   a.mIndex = cvin_index; cv_once = true; std::string v; a.assign( v, false); \
   __CPROVER_assert(a.mIndex <= CV_N, "invariant preserved: mIndex <= N after one pass of the token loop"); CANARY; }
+extern "C" void h_assign_vecbool() { cv_vecbool_type dest; size_t cvin_size = cv_nondet_size(); __CPROVER_assume(cvin_size <= CV_VCAP); dest.mSize = cvin_size;   // the destination vector the program handed in: any size
+  CV_TA_vecbool a( dest); cv_Cardinality card; a.mpCardinality.mP = cv_nondet_bool() ? &card : (cv_Cardinality*)0;
+  a.mClearB4Assign = cv_nondet_bool(); a.mResetFlags = cv_nondet_bool(); a.mListSep = ','; cvin_tok_pos = cv_nondet_size(); cv_once = true; std::string v; a.assign( v, false); CANARY; }
 extern "C" void h_assign_bitset() { cv_bitset_type dest; CV_TA_bitset a( dest); cv_Cardinality card; a.mpCardinality.mP = cv_nondet_bool() ? &card : (cv_Cardinality*)0;
   a.mClearB4Assign = cv_nondet_bool(); a.mResetFlags = cv_nondet_bool(); a.mListSep = ','; cvin_tok_pos = cv_nondet_size(); cv_once = true; std::string v; a.assign( v, false); CANARY; }
 HARNESS(h_assign_carray, CV_TA_carray, cv_carray_type)
 HARNESS(h_assign_stdarray, CV_TA_stdarray, cv_array_type)
 '''
 
+
+HARNESS_FILE = r'''// generated harness: one line of an argument file through the body of the reading loop of Handler::readArgumentFile
+#include <cstdint>
+#include <cstddef>
+#include <string>
+#define CANARY __CPROVER_assert(0, "CV_CANARY")
+using std::string;
+// environment (ASSUMED contracts): the line is split and evaluated by code that is under contract elsewhere (ArgString2Array,
+// ArgListIterator) or outside the front end (iterateArguments)
+namespace celma { namespace appl { struct ArgString2Array { int mArgC; char** mpArgV; };
+  inline ArgString2Array make_arg_array( const std::string& line, const char*) { ArgString2Array a; a.mArgC = 0; a.mpArgV = 0; return a; } } }
+namespace celma { namespace prog_args { namespace detail { struct ArgListParser { ArgListParser( int, char**) { } }; }
+static void iterateArguments( detail::ArgListParser&) { }
+#include "gen/file_line.inc"
+}}
+extern "C" void h_file_line() {
+  std::string line; size_t n; __CPROVER_assume(n <= CV_STR_CAP); line.mLen = n;   // any line, also empty / blanks only / comment
+  for (size_t i = 0; i < CV_STR_CAP; ++i) { char cvin_seq_c; __CPROVER_assume(cvin_seq_c != 0 && cvin_seq_c != '\n'); line.mData[i] = (i < n) ? cvin_seq_c : 0; } line.mData[CV_STR_CAP] = 0;
+  celma::prog_args::cv_file_line( line); CANARY; }
+'''
 
 HARNESS_BLOCKS_CPP = r'''// generated: environment of the program-name blocks of Handler (dfcc mode).  Static storage handed out by the C library is
 // global and NOT part of the frame: a write through such a pointer fails the assigns clause.
@@ -382,6 +454,13 @@ __CPROVER_ensures(w_str_len(name_obj) <= (n == 0 ? 1 : n) && w_str_at(name_obj, 
 void h_block_0(void) { const char* arg0; size_t n; __CPROVER_assert(w_str_size() == STRSZ, "layout witness: sizeof(std::string stand-in)"); cw_block_0(arg0, n); __CPROVER_assert(0, "CV_CANARY"); }
 void h_block_1(void) { const char* arg0; size_t n; void* name_obj; __CPROVER_assert(w_str_size() == STRSZ, "layout witness: sizeof(std::string stand-in)"); cw_block_1(arg0, n, name_obj); __CPROVER_assert(0, "CV_CANARY"); }
 '''
+
+
+def make_build_file(unit, cap):
+    def build(job, wd):
+        core.goto_cc(['-nostdinc', '-I', core.STUBS, '-I', unit.scratch.dir, '-DCV_STRING_INLINE', '-DCV_STR_CAP=%d' % cap, unit.hf, '--function', 'h_file_line', '-o', 'h.gb'], wd, 'file-line block')
+        return os.path.join(wd, 'h.gb')
+    return build
 
 
 def make_build_block(unit, k, nb, cap):
@@ -460,11 +539,15 @@ def jobs(unit, tier, only=None):
         out.append(Job('c04_name_block_%d' % k, fn, 'frame contract: nothing but the block\'s own allocations%s is written' % (' and the name string' if k else ''),
                        make_build_block(unit, k, nb, nb + 20), backend='sat', unwind=nb + 24, timeout=900, instance={'name_length': '<= %d' % nb},
                        bounded='program name <= %d characters' % nb))
+    cap = 6 if tier == 'quick' else 10
+    out.append(Job('c04_file_line', 'Handler::readArgumentFile: body of the line loop (sliced statements)', 'every access to the line is inside it (std::string::operator[] requires pos <= size()) (harness)',
+                   make_build_file(unit, cap), backend='sat', unwind=cap + 3, timeout=300, mode='harness', instance={'line_length': '<= %d' % cap},
+                   bounded='line <= %d characters' % cap, extra_flags=['--drop-unused-functions'], need_postcondition=False))
     for a in unit.assigners:
-        for n in ((1, 3) if tier == 'quick' else (1, 2, 3, 8)):
+        for n in ((1,) if a['kind'] == 'vecbool' else (1, 3) if tier == 'quick' else (1, 2, 3, 8)):
             out.append(Job('c04_assign_%s_N%d' % (a['kind'], n), a['function'] + ' (sliced function, T := int)',
                            'every write to the fixed-size destination is inside it; index invariant mIndex <= N preserved (induction over the token loop, harness)',
-                           make_build_assign(unit, 'h_assign_' + a['kind'], n), backend='sat', unwind=max(6, n + 3), timeout=300, mode='harness',
+                           make_build_assign(unit, 'h_assign_' + a['kind'], n), backend='sat', unwind=max(6, n + 3, 27 if a['kind'] == 'vecbool' else 0), timeout=300, mode='harness',
                            instance={'N': n, 'tokens': 'unbounded (induction step from an arbitrary token position)'}, extra_flags=['--drop-unused-functions']))
     if only:
         out = [j for j in out if only in j.name]
@@ -521,7 +604,7 @@ def replay_assign(job, inputs, scratch):
     """The counterexample is a state (values already stored, position of the token): the real Handler is driven into it with a
     command line and the destination lives in a heap block of exactly N ints."""
     import glob
-    n, kind = job.instance['N'], (0 if 'carray' in job.name else (1 if 'stdarray' in job.name else 2))
+    n, kind = job.instance['N'], (0 if 'carray' in job.name else (1 if 'stdarray' in job.name else (3 if 'vecbool' in job.name else 2)))
     odir = scratch.path('replay', 'c04_objs', '.keep')
     odir = os.path.dirname(odir)
     flags = ['-std=c++17', '-w', '-g', '-O0', '-fsanitize=address,undefined', '-fno-sanitize=vptr', '-fno-sanitize-recover=all', '-I', core.SRC]
@@ -538,12 +621,12 @@ def replay_assign(job, inputs, scratch):
             return {'outcome': 'unavailable', 'detail': 'replay build failed: ' + bad[0][2][-600:]}
     exe = scratch.path('replay', 'c04_assign_%d_%d' % (kind, n))
     if not os.path.exists(exe):
-        rc, out, err, s = core.run(['g++'] + flags + ['-DCV_N=%d' % n, '-DCV_KIND=%d' % kind, os.path.join(core.VERIF, 'replay', 'c04_assign.cpp')] +
+        rc, out, err, s = core.run(['g++'] + flags + ['-D_GLIBCXX_ASSERTIONS', '-DCV_N=%d' % n, '-DCV_KIND=%d' % kind, os.path.join(core.VERIF, 'replay', 'c04_assign.cpp')] +
                                    sorted(glob.glob(os.path.join(odir, '*.o'))) + ['-o', exe], timeout=600, limit=False)
         if rc != 0:
             return {'outcome': 'unavailable', 'detail': 'replay link failed: ' + err[-600:]}
     gi = lambda k: inputs.get(k) if isinstance(inputs.get(k), int) else 0
-    args = [exe, str(gi('cvin_index')), '1' if gi('cvin_tok_pos') == 0 else '0'] if kind != 2 else [exe, str(gi('cvin_cast_value'))]
+    args = [exe, str(gi('cvin_index')), '1' if gi('cvin_tok_pos') == 0 else '0', '1' if gi('a.mUniqueData') else '0'] if kind < 2 else ([exe, str(gi('cvin_cast_value'))] if kind == 2 else [exe, str(gi('cvin_size')), str(gi('cvin_cast_value'))])
     rc, out, err, s = core.run(args, timeout=60, limit=False, env={'ASAN_OPTIONS': 'detect_leaks=0'})
     return {'outcome': 'reproduced' if rc != 0 else 'not-reproduced', 'cmd': 'replay/c04_assign.cpp -DCV_N=%d -DCV_KIND=%d: %s' % (n, kind, ' '.join(args[1:])),
             'args': {'argv': args[1:], 'N': n, 'kind': kind}, 'output': (out + err).strip()[-1500:]}
@@ -554,6 +637,20 @@ def replay(unit, job, o, inputs, scratch):
         return replay_assign(job, inputs, scratch)
     if 'name_block' in job.name:
         return replay_block(job, inputs, scratch)
+    if 'file_line' in job.name:
+        objs, flags, err = _lib_objects(scratch)
+        if objs is None:
+            return {'outcome': 'unavailable', 'detail': err}
+        exe = scratch.path('replay', 'c04_file')
+        if not os.path.exists(exe):
+            rc, out, e, s_ = core.run(['g++'] + flags + [os.path.join(core.VERIF, 'replay', 'c04_file.cpp')] + objs + ['-o', exe], timeout=600, limit=False)
+            if rc != 0:
+                return {'outcome': 'unavailable', 'detail': 'replay link failed: ' + e[-600:]}
+        chars = [x for x in inputs.get('cvin_seq_c', []) if isinstance(x, int)]
+        n = inputs.get('n') if isinstance(inputs.get('n'), int) else 0
+        args = [exe, 'line=' + ''.join('%02x' % (c & 255) for c in chars[:max(0, min(n, len(chars)))])]
+        rc, out, e, s_ = core.run(args, timeout=60, limit=False, env={'ASAN_OPTIONS': 'detect_leaks=0'})
+        return {'outcome': 'reproduced' if rc != 0 else 'not-reproduced', 'cmd': 'replay/c04_file.cpp: ' + ' '.join(args[1:]), 'args': {'argv': args[1:]}, 'output': (out + e).strip()[-1500:]}
     if 'as2a' in job.name:
         gi = lambda k, d=0: inputs.get(k) if isinstance(inputs.get(k), int) else d
         chars = [x for x in inputs.get('cvin_seq_c', []) if isinstance(x, int)]
@@ -603,7 +700,7 @@ def evidence_info(unit, tier):
                        'copies of Handler (statements sliced out mechanically; name length unbounded; strcpy/strlen bound to their contract), the complete program-name '
                        'handling of both functions (statement blocks up to the call that evaluates the file / the variable) in dfcc mode against a FRAME contract (assigns) - '
                        'CBMC has no read-only memory, only the frame check sees a write into static storage the C library hands out -, and the three '
-                       'fixed-size destinations of typed_arg.hpp, TypedArg<T[N]>::assign, TypedArg<std::array<T,N>>::assign and TypedArg<std::bitset<N>>::assign (whole function '
+                       'fixed-size destinations of typed_arg.hpp, TypedArg<T[N]>::assign, TypedArg<std::array<T,N>>::assign, TypedArg<std::bitset<N>>::assign and TypedArg<std::vector<bool>>::assign with its growth helper (whole function '
                        'definitions sliced out, T := int, checked by induction over the token loop from any state with mIndex <= N: unbounded in '
                        'tokens and calls, environment by assumed contracts). '
                        'Termination and "only std::exception escapes" are not decided; the rest of the handler (boost, iostreams, std::function, '
@@ -615,13 +712,14 @@ def evidence_info(unit, tier):
                          'mIndex/mDestVar; ICardinality::gotValue may throw; std::sort requires a valid range inside one object; std::bitset<N>::operator[] requires pos < N (unchecked access); '
                          'T (&mDestVar)[N] stands as pointer to a separate N-element array (reference-to-array members cannot be initialised by the front end)',
                          'static fact (regex, every run): mIndex of both classes is initialised to 0 and written only in assign()'],
-        'assumptions': ['bounded argv / string sizes (see instances)', 'a throw ends the path (no exception object modelled)',
+        'assumptions': ['bounded argv / string sizes (see instances); argc >= 1: the program name is present (evalArguments(0, {nullptr}) is outside the contracts)',
+                        'argument-file lines: the body of the line loop of Handler::readArgumentFile for an arbitrary line of <= 6 / 10 characters; splitting and evaluation of the line are assumed (under contract elsewhere / outside the front end)', 'a throw ends the path (no exception object modelled)',
                         'static scan (supporting fact, regex): raw memory handling in the argument-handling sources occurs in ' + ', '.join(sorted(unit.scan)) +
                         (('; NOT under contract: ' + ', '.join(unit.unexpected_raw)) if unit.unexpected_raw else '; all of these are under contract'),
-                        'typed destinations other than the two fixed-size arrays and the bitset (containers, tuple, optional, ValueFilter) are not under contract: they store through library containers or compile-time indices',
+                        'typed destinations other than the two fixed-size arrays, the bitset and vector<bool> (containers, tuple, optional, ValueFilter) are not under contract: they store through library containers or compile-time indices',
                         'program-name blocks: names <= 4 (quick) / 6 (thorough) characters; basename() as the __xpg_basename of glibc (may modify the path, returns a pointer into it, static storage for an empty path) and getenv() by ASSUMED contract; static storage is outside the frame; boost::to_upper upper-cases in place; array new spelled as the allocation function (R-NEWARR, unusable under dfcc otherwise)',
                         'CBMC pointer checks are object-granular: the array destination of the slices is a separate object so that a write behind it is an obligation'],
-        'not_under_contract': list(unit.shadow.dropped) + ['Handler (everything except the sliced program-name copies and blocks)', 'TypedArg<...> destinations other than T[N], std::array<T,N> and std::bitset<N>'],
+        'not_under_contract': list(unit.shadow.dropped) + ['Handler (everything except the sliced program-name copies and blocks)', 'TypedArg<...> destinations other than T[N], std::array<T,N>, std::bitset<N> and std::vector<bool>'],
         'extra': {'static_scan': {k: v[:20] for k, v in unit.scan.items()}, 'raw_memory_sites_not_under_contract': unit.unexpected_raw,
                   'name_copy_slices': unit.slices, 'array_assigner_slices': unit.assigners},
     }
